@@ -32,7 +32,7 @@ Proof.
   - rewrite py_lt_ints, py_gt_ints in H. cbn [bind] in H.
     destruct (Z.ltb_spec z 0) as [Hlo|Hlo]; cbn [bind] in H; [discriminate H|].
     destruct (Z.ltb_spec 20116800 z) as [Hhi|Hhi]; cbn [bind] in H; [discriminate H|].
-    unfold py_Emu, py_centipoints_attr, py_floordiv, arith in H.
+    unfold py_Emu, Length__centipoints, py_floordiv, arith in H.
     cbn [py_int bind as_num py_str] in H. change (127 =? 0) with false in H. cbv iota in H.
     cbn [bind py_str] in H.
     injection H as <-. apply lex_int_between.
